@@ -253,7 +253,7 @@ func init() {
 			cat := rtEncodeCatalogue()
 			emit := func(ops []string) { g.emit("rt", cat, strings.Join(ops, ";")) }
 			// systematic: every ordered pair of versions for one file, with lines and an expiry mark between
-			vers := []int{0, 1, 2, 3, 4, 5, 6, 10, 11, 16, 18, 19}
+			vers := []int{0, 1, 2, 3, 4, 5, 6, 10, 11, 16, 18, 19, 20}
 			for _, a := range vers {
 				for _, b := range vers {
 					emit([]string{fmt.Sprintf("w:a.mtail:%d", a), "load", "l:x", "l:y", "x:a.mtail:c:x:3600000", fmt.Sprintf("w:a.mtail:%d", b), "load", "l:x", "load"})
